@@ -479,7 +479,8 @@ func Generate(r *core.Rng, maxOps int, wantOOB bool) *Program {
 		g.shape = append(g.shape, "decl:"+typ)
 	}
 	if r.Chance(1, 2) {
-		s := declStr{"s0", core.Pick(r, []string{"Hello", "a", "ferret", "xyzzy plugh", "Zq"})}
+		// lengths 0, 4 and 8 too: data-segment padding and alignment boundaries
+		s := declStr{"s0", core.Pick(r, []string{"Hello", "a", "ferret", "xyzzy plugh", "Zq", "abcd", "12345678", "", "wxyz", "qrs"})}
 		run(s)
 		g.shape = append(g.shape, "str")
 	}
